@@ -320,6 +320,12 @@ fn find_index_generic(
         return None;
     }
 
+    // A super type may instantiate (through a generic alias) to an application of this class again:
+    // `---@alias X<T> B<T>` + `---@class B: X<integer>`. Mark the class for the walk over its supers; the
+    // mark lives in a fork so that other members of a union / intersection are unaffected.
+    let infer_guard = &infer_guard.fork();
+    infer_guard.check(&type_decl_id).ok()?;
+
     let mut members = Vec::new();
 
     // Check for __index operators with generic substitution
